@@ -12,6 +12,7 @@ sel      : dict(k="field", alias, name, args=[(name, lit)], dirs, sels, ptype, f
 dir      : dict(name, args=[(name, lit)])
 """
 import copy
+import random
 import zlib
 from collections import OrderedDict
 
@@ -53,6 +54,16 @@ def gen_val_schema(rng):
             if rng.random() < 0.35 and not _is_iface_field(types, tn, f["name"]):
                 t = rng.choice(shapes)
                 f.setdefault("args", []).append({"name": "in%d" % len(f["args"]), "type": t, "default": None})
+    # an implementation may declare ADDITIONAL nullable arguments on an interface's field: they are arguments of the object's
+    # field only (selected through the interface they are unknown).  Own generator: the main random stream is not touched
+    r2 = random.Random(len(types) * 7919 + sum(len(d.get("fields", [])) for d in types.values()))
+    nullable_shapes = [t for t in shapes if t[0] != "nonnull"]
+    for tn, d in types.items():
+        if d["kind"] != "OBJECT":
+            continue
+        for f in d["fields"]:
+            if _is_iface_field(types, tn, f["name"]) and r2.random() < 0.5:
+                f.setdefault("args", []).append({"name": "own%d" % len(f["args"]), "type": r2.choice(nullable_shapes), "default": None})
     # two abstract types whose possible types are disjoint, reachable from Query (rule 5.5.2.3 between abstract scopes)
     objs = [n for n, d in types.items() if d["kind"] == "OBJECT" and n not in ("Query", "Mutation", "Subscription")]
     if len(objs) >= 2 and "UD0" not in types:
@@ -731,6 +742,22 @@ def mutants(rng, s, doc, limit_per_rule=6):
     for h in hidx[:limit_per_rule]:
         add("argument-names", "unknown argument on %s" % holders[h][2],
             lambda d, h=h: arg_holders(d, s)[h][0].append(("zz_unknown", ("int", 1))))
+    # an argument that only an IMPLEMENTATION of the interface declares, on the field selected through the interface
+    n_impl = 0
+    for h in hidx:
+        _args, defs, desc, node = holders[h]
+        if not desc.startswith("field ") or defs is None or n_impl >= limit_per_rule:
+            continue
+        scope = desc[len("field "):].rsplit(".", 1)[0]
+        if s["types"].get(scope, {}).get("kind") != "INTERFACE":
+            continue
+        known = {a["name"] for a in defs}
+        extra = [a["name"] for tn, d in s["types"].items() if d["kind"] == "OBJECT" and scope in d.get("interfaces", [])
+                 for f in d["fields"] if f["name"] == node["name"] for a in f.get("args", []) if a["name"] not in known]
+        if extra:
+            n_impl += 1
+            add("argument-names", "argument %s of an implementation used on %s" % (extra[0], desc),
+                lambda d, h=h, nm=extra[0]: arg_holders(d, s)[h][0].append((nm, ("null",))))
     for h in [h for h in hidx if holders[h][0]][:limit_per_rule]:
         add("argument-uniqueness", "argument duplicated on %s" % holders[h][2],
             lambda d, h=h: arg_holders(d, s)[h][0].append(copy.deepcopy(arg_holders(d, s)[h][0][0])))
